@@ -175,3 +175,105 @@ def c24(run, tier):
             if res["r"] == "panic": run.violation({"what": "parser panics", "as": it["as"], "input": it["text"][:80], "text": res.get("text", "")[:60]}, {"input": it})
             else: run.traces += 1
     run.exhaustive = False
+
+# ------------------------------------------------------------------------------------ C22
+D_PRELUDE = "trait Tr {} trait Tr2 {} trait It { type Item; } struct Base {} impl It for Base { type Item = Base; }"
+
+def render_display(v):
+    it = v["item"]
+    out = [D_PRELUDE]
+    if it == "adt":
+        params = {"none": "", "T": "<T>", "lt T": "<'a, T>", "const": "<const N>", "T U": "<T, U>"}[v["params"]]
+        nparams = {"none": 0, "T": 1, "lt T": 2, "const": 1, "T U": 2}[v["params"]]
+        attrs = []
+        if v["variance"]: attrs.append("#[variance(%s)]" % ", ".join(["Covariant", "Invariant"][:nparams]))
+        if v["upstream"]: attrs.append("#[upstream]")
+        if v["fundamental"]: attrs.append("#[fundamental]")
+        if v["phantom"]: attrs.append("#[phantom_data]")
+        if v["zst"]: attrs.append("#[one_zst]")
+        attrs += {"none": [], "C": ["#[repr(C)]"], "packed": ["#[repr(packed)]"], "u32": ["#[repr(u32)]"], "C packed": ["#[repr(C)]", "#[repr(packed)]"]}[v["repr"]]
+        wc = {"none": "", "bound": " where T: Tr", "two": " where T: Tr, T: Tr2", "outlives": " where T: 'a, T: Tr", "dup": " where T: Tr, T: Tr",
+              "aliaseq": " where T: It<Item = Base>"}[v["wc"]]
+        fty = {"scalar": "u32", "param": "T", "ref": "&'a T"}.get(v["fields"])
+        if v["kind"] == "enum": body = "{ A, B(%s) }" % fty if fty else "{ A, B }"
+        else: body = "{ f: %s }" % fty if fty else "{}"
+        out.append("%s %s X%s%s %s" % (" ".join(attrs), v["kind"], params, wc, body))
+    elif it == "trait":
+        attrs = [a for a, on in (("#[auto]", v["auto"]), ("#[marker]", v["marker"]), ("#[upstream]", v["upstream"]), ("#[fundamental]", v["fundamental"]),
+                                 ("#[non_enumerable]", v["nonenum"]), ("#[coinductive]", v["co"]), ("#[object_safe]", v["objsafe"])) if on]
+        if v["lang"] != "none": attrs.append("#[lang(%s)]" % v["lang"])
+        params = {"none": "", "T": "<T>", "lt": "<'a>"}[v["params"]]
+        sup = " where Self: Tr" if v["super"] else ""
+        a = v["assoc"]
+        body = {"none": "", "plain": "type A;", "bound": "type A: Tr + Tr2;", "generic": "type A<U>;", "where": "type A<U> where U: Tr;", "clash": "type Item;", "clashimpl": "type Item;",
+                "eqbound": "type A: It<Item = Base>;"}[a]
+        out.append("%s trait X%s%s { %s }" % (" ".join(attrs), params, sup, body))
+        if a == "clashimpl" and v["params"] == "none": out.append("impl X for Base { type Item = Base; }")
+    elif it == "impl":
+        gen = "<T>" if v["generic"] else ""
+        selfty = {"Base": "Base", "G": "G<T>", "ref": "&'static Base", "tuple": "(Base, Base)", "fn": "fn(Base) -> Base", "dyn": "dyn Tr + 'static", "array": "[Base; 3]"}[v["self"]]
+        wc = {"none": "", "bound": " where T: Tr2", "dup": " where T: Tr2, T: Tr2"}[v["wc"]]
+        val = {"none": None, "base": "Base", "param": "T", "proj": "<T as It>::Item"}[v["value"]]
+        out.append("struct G<T> {}")
+        if val is not None:
+            out.append("trait WithA { type A; }")
+            out.append("impl%s WithA for %s%s { type A = %s; }" % (gen, selfty, wc, val))
+        else:
+            out.append("impl%s %sTr for %s%s {}" % (gen, "!" if v["neg"] else "", selfty, wc))
+    elif it == "opaque":
+        b = {"one": "Tr", "two": "Tr + Tr2"}[v["bounds"]]
+        if v["generic"]: out.append("opaque type X<T>: %s%s = T;" % (b, " where T: Tr" if v["wc"] else ""))
+        else: out.append("impl Tr for Base {} impl Tr2 for Base {} opaque type X: %s = Base;" % b)
+    else:
+        gen = "<T>" if v["generic"] else ""
+        args = {"none": "", "one": "x: Base", "two": "x: Base, y: %s" % ("T" if v["generic"] else "u32")}[v["args"]]
+        if v["variadic"]: args += ", ..."
+        out.append("%s%s fn f%s(%s)%s%s;" % ("unsafe " if v["unsafe"] else "", 'extern "C"' if v["abi"] == "C" else "", gen, args, " -> Base" if v["ret"] else "",
+                                             " where T: Tr" if v["wc"] else ""))
+    return " ".join(out)
+
+@prop("C22", "other")
+def c22(run, tier):
+    run.rule = ("TLC enumerates the program space of DisplayMC.tla (14 295 feature vectors: ADTs with every flag, repr, parameter kind, variance, where-clause shape and field shape; "
+                "traits with every flag combination of size <= 3, lang attributes, parameters, supertrait, eight associated-type shapes incl. two traits sharing an associated "
+                "type name with and without an impl value; impls positive / negative over seven self-type shapes with associated values; opaque types; fn definitions); each "
+                "vector is rendered and put through the real lower -> write_items -> parse -> lower -> write_items -> parse -> lower: the printed text must lower, for "
+                "`Exact` vectors the reparsed program must equal the original, for all vectors the second rendering must equal the first and re-lower to the reparsed "
+                "program; non-trivial = the vector sets at least one flag, where-clause or associated type; distinct = vector")
+    run.assumptions = ["the printer and the parser themselves are not modelled in TLA+ (they are encode / decode code); the specification contributes the program space and the equivalence demanded",
+                       "vectors the front end rejects (lowering errors on the original text) are counted and skipped",
+                       "trusted: TLC, the renderer render_display, Program's Eq"]
+    r = run_tlc_mc(run, "DisplayMC", "SPECIFICATION Spec\nINVARIANTS TypeOK Replay\nCHECK_DEADLOCK FALSE\n", "C22", workers=8, timeout=1800)
+    if r is None: return
+    recs = gc.parse_replay(r)
+    if tier == "quick":
+        st = 5; recs = [x for i, x in enumerate(sorted(recs, key=lambda x: json.dumps(x, sort_keys=True))) if i % st == seed() % st]
+    run.exhaustive = tier == "thorough"
+    jobs = [{"id": i, "program": render_display(x["v"])} for i, x in enumerate(recs)]
+    obs = harness.run("display", jobs, timeout=300)
+    rejected = 0
+    for x, job, o in zip(recs, jobs, obs):
+        v = x["v"]
+        nontrivial = any(val not in (False, "none", "adt", "trait", "impl", "opaque", "fn", "struct", "Base", "one") for val in v.values())
+        rp = {"vector": v, "program": job["program"], "observed": o}
+        if o.get("error"):
+            run.case([job["program"]], nontrivial=nontrivial); run.violation({"what": "abort-or-hang", "detail": str(o["error"])[:80]}, rp); continue
+        if "panic" in o:
+            run.case([job["program"]], nontrivial=nontrivial); run.violation({"what": "the writer / parser panics", "item": v["item"], "text": o["panic"][:80]}, rp); continue
+        if o.get("lower1") != "ok": rejected += 1; continue
+        run.case([job["program"]], nontrivial=nontrivial)
+        sig = {"item": v["item"], "features": {k: val for k, val in v.items() if val not in (False, "none") and k != "item"}}
+        if o.get("lower2") != "ok": run.violation(dict(sig, what="the printed program does not parse / lower", detail=str(o.get("lower2"))[:90]), rp)
+        elif x["exact"] and not o["eq12"]:
+            if v["item"] == "fn" and (v["unsafe"] or v["abi"] != "none" or v["variadic"]):
+                run.violation({"deviation": "Writer_DropsFnSig", "what": "the reparsed program differs from the original"}, rp)
+            else: run.violation(dict(sig, what="the reparsed program differs from the original"), rp)
+        elif not o["same_text"]:
+            eqb = (v["item"] == "adt" and v.get("wc") == "aliaseq") or (v["item"] == "trait" and v.get("assoc") == "eqbound")
+            if eqb: run.violation({"deviation": "Writer_NoCoalesceAliasEqBound", "what": "rendering the reparsed program does not reproduce the text"}, rp)
+            else: run.violation(dict(sig, what="rendering the reparsed program does not reproduce the text"), rp)
+        elif not o["eq23"]: run.violation(dict(sig, what="the second round trip changes the program"), rp)
+        else: run.traces += 1
+        if nontrivial: run.sample({"program": job["program"][len(D_PRELUDE):], "printed": o.get("text1", "")[-220:]}, cap=5)
+    run.extra["explanation"] = ("round trip of %d rendered feature vectors through the real writer and parser; %d vectors were rejected by the front end before printing and skipped" % (len(recs) - rejected, rejected))
+    run.extra["vectors_rejected_by_front_end"] = rejected
